@@ -1,4 +1,5 @@
 import Jp.Lemmas.Text
+import Jp.Lemmas.C03Helpers
 /-
   C03 — Token escaping is a bijection: decode(encode(s)) = s and validation is exact.
 
@@ -8,313 +9,15 @@ import Jp.Lemmas.Text
 namespace Jp.C03
 open Jp Jp.Spec
 
-/-- a `~` at index `i` that is not followed by `0` or `1` -/
-def badTildeAt (e : Bytes) (i : Nat) : Prop :=
-  e[i]? = some 126 ∧ e[i + 1]? ≠ some 48 ∧ e[i + 1]? ≠ some 49
+-- def badTildeAt … : see Jp/Lemmas/C03Helpers.lean
+-- a `~` at index `i` that is not followed by `0` or `1`
+--   def badTildeAt (e : Bytes) (i : Nat) : Prop :=
+--     e[i]? = some 126 ∧ e[i + 1]? ≠ some 48 ∧ e[i + 1]? ≠ some 49
 
 -- OBLIGATIONS
 -- new_encoded decoded_new dec_enc enc_valid enc_dec enc_injective decoded_eq_dec
 -- fromEncoded_ok_iff fromEncoded_verbatim fromEncoded_decoded fromEncoded_reencode
 -- fromEncoded_err_truthful fromEncoded_no_panic new_fresh_iff decoded_fresh_iff
-
-/-! ### helpers -/
-
-theorem position_none_iff (p : Nat → Bool) (s : Bytes) :
-    position p s = none ↔ ∀ b ∈ s, p b = false := by
-  induction s with
-  | nil => simp [position]
-  | cons b r ih =>
-    by_cases hb : p b = true
-    · simp [position, hb]
-    · simp [position, hb, ih]
-
-theorem position_isSome_iff (p : Nat → Bool) (s : Bytes) :
-    (∃ i, position p s = some i) ↔ ∃ b ∈ s, p b = true := by
-  constructor
-  · intro ⟨i, hi⟩
-    by_cases h : ∃ b ∈ s, p b = true
-    · exact h
-    · have : position p s = none := (position_none_iff p s).mpr (by
-        intro b hb
-        cases hp : p b with
-        | false => rfl
-        | true => exact absurd ⟨b, hb, hp⟩ h)
-      simp [this] at hi
-  · intro ⟨b, hb, hp⟩
-    cases h : position p s with
-    | some i => exact ⟨i, rfl⟩
-    | none =>
-      have := (position_none_iff p s).mp h b hb
-      simp [this] at hp
-
-theorem encodeFrom_eq_enc (s : Bytes) : encodeFrom s = enc s := by
-  induction s with
-  | nil => simp [encodeFrom, enc]
-  | cons b r ih =>
-    by_cases h1 : b = 47
-    · subst h1; simp [encodeFrom, enc, ih]
-    · by_cases h2 : b = 126
-      · subst h2; simp [encodeFrom, enc, ih]
-      · simp [encodeFrom, enc, ih, h1, h2]
-
-theorem enc_of_position_none (s : Bytes)
-    (h : position (fun b => b == 47 || b == 126) s = none) : enc s = s := by
-  induction s with
-  | nil => simp [enc]
-  | cons b r ih =>
-    simp only [position] at h
-    split at h
-    · simp at h
-    · rename_i hb
-      simp at h hb
-      simp [enc, hb, ih h]
-
-theorem take_enc_of_position_some (s : Bytes) (i : Nat)
-    (h : position (fun b => b == 47 || b == 126) s = some i) :
-    s.take i ++ enc (s.drop i) = enc s := by
-  induction s generalizing i with
-  | nil => simp [position] at h
-  | cons b r ih =>
-    simp only [position] at h
-    split at h
-    · simp at h; subst h; simp
-    · rename_i hb
-      simp at hb
-      simp only [Option.map_eq_some_iff] at h
-      obtain ⟨j, hj, rfl⟩ := h
-      simp [enc, hb, ih j hj]
-
-theorem dec_cons_ne (b : Nat) (l : Bytes) (h : b ≠ 126) : dec (b :: l) = b :: dec l := by
-  cases l with
-  | nil => simp [dec]
-  | cons c r => simp [dec, h]
-
-theorem enc_noSlash (s : Bytes) : 47 ∉ enc s := by
-  induction s with
-  | nil => simp [enc]
-  | cons b r ih =>
-    by_cases h2 : b = 126
-    · subst h2; simp [enc, ih]
-    · by_cases h1 : b = 47
-      · subst h1; simp [enc, ih]
-      · simp [enc, h1, h2, ih]; omega
-
-theorem tildesOk_cons_ne (b : Nat) (r : Bytes) (hb : b ≠ 126) : tildesOk (b :: r) = tildesOk r := by
-  cases r <;> simp [tildesOk, hb]
-
-theorem tildesOk_tilde_cons (c : Nat) (r : Bytes) :
-    tildesOk (126 :: c :: r) = ((c == 48 || c == 49) && tildesOk r) := by
-  rw [tildesOk]; simp
-
-theorem enc_tildesOk (s : Bytes) : tildesOk (enc s) = true := by
-  induction s with
-  | nil => simp [enc, tildesOk]
-  | cons b r ih =>
-    by_cases h2 : b = 126
-    · subst h2; simp [enc, tildesOk, ih]
-    · by_cases h1 : b = 47
-      · subst h1; simp [enc, tildesOk, ih]
-      · simp [enc, tildesOk_cons_ne, h1, h2, ih]
-
-theorem validTok_iff (t : Bytes) : validTok t = true ↔ 47 ∉ t ∧ tildesOk t = true := by
-  simp [validTok]
-
-theorem enc_dec_aux (e : Bytes) (h1 : 47 ∉ e) (h2 : tildesOk e = true) : enc (dec e) = e := by
-  fun_induction tildesOk e with
-  | case1 => simp [dec, enc]
-  | case2 c r' ih =>
-    simp at h2 h1
-    obtain ⟨hc, hr⟩ := h2
-    rcases hc with rfl | rfl
-    · simp [dec, enc, ih h1.2 hr]
-    · simp [dec, enc, ih h1.2 hr]
-  | case3 => simp at h2
-  | case4 b r hb ih =>
-    simp at h1
-    rw [dec_cons_ne b r hb]
-    have : b ≠ 47 := fun h => h1.1 h.symm
-    simp [enc, hb, this, ih h1.2 h2]
-
-theorem decodeLoop_dec (r : Bytes) :
-    (tildesOk r = true → decodeLoop r false = dec r) ∧
-    (tildesOk (126 :: r) = true → decodeLoop r true = dec (126 :: r)) := by
-  induction r with
-  | nil => simp [tildesOk, decodeLoop, dec]
-  | cons c r ih =>
-    constructor
-    · intro h
-      by_cases hc : c = 126
-      · subst hc
-        simp only [decodeLoop, if_true]
-        exact ih.2 h
-      · have h' : tildesOk r = true := by rw [tildesOk_cons_ne c r hc] at h; exact h
-        rw [dec_cons_ne c r hc]
-        simp [decodeLoop, hc, ih.1 h']
-    · intro h
-      simp [tildesOk] at h
-      obtain ⟨hc, hr⟩ := h
-      rcases hc with rfl | rfl
-      · simp [decodeLoop, dec, ih.1 hr]
-      · simp [decodeLoop, dec, ih.1 hr]
-
-theorem dec_of_position_none (e : Bytes) (h : position (fun b => b == 126) e = none) :
-    dec e = e := by
-  induction e with
-  | nil => simp [dec]
-  | cons b r ih =>
-    simp only [position] at h
-    split at h
-    · simp at h
-    · rename_i hb
-      simp at h hb
-      rw [dec_cons_ne b r hb, ih h]
-
-theorem decoded_aux (e : Bytes) (i : Nat) (h : position (fun b => b == 126) e = some i)
-    (ht : tildesOk e = true) :
-    e.take i ++ decodeLoop (e.drop (i + 1)) true = dec e := by
-  induction e generalizing i with
-  | nil => simp [position] at h
-  | cons b r ih =>
-    simp only [position] at h
-    split at h
-    · rename_i hb
-      simp at h hb; subst h; subst hb
-      simpa using (decodeLoop_dec r).2 ht
-    · rename_i hb
-      simp at hb
-      simp only [Option.map_eq_some_iff] at h
-      obtain ⟨j, hj, rfl⟩ := h
-      have ht' : tildesOk r = true := by rw [tildesOk_cons_ne b r hb] at ht; exact ht
-      rw [dec_cons_ne b r hb]
-      simp [ih j hj ht']
-
-theorem loop_no_panic (r : Bytes) (o : Nat) (esc : Bool) (m : String) :
-    fromEncodedLoop r o esc ≠ .panic m := by
-  induction r generalizing o esc with
-  | nil => simp [fromEncodedLoop]
-  | cons b r ih =>
-    unfold fromEncodedLoop
-    split
-    · simp
-    · split
-      · split
-        · simp
-        · exact ih _ _
-      · split
-        · exact ih _ _
-        · split
-          · simp
-          · exact ih _ _
-
-theorem loop_tilde_ok (c : Nat) (r : Bytes) (o : Nat) (hc : c = 48 ∨ c = 49) :
-    fromEncodedLoop (126 :: c :: r) o false = fromEncodedLoop r (o + 2) false := by
-  rcases hc with rfl | rfl <;> simp [fromEncodedLoop]
-
-theorem loop_tilde_bad (c : Nat) (r : Bytes) (o : Nat) (h1 : c ≠ 48) (h2 : c ≠ 49) :
-    fromEncodedLoop (126 :: c :: r) o false =
-      .err ⟨o + 1, if c = 47 then .slash else .tilde⟩ := by
-  by_cases h47 : c = 47
-  · subst h47; simp [fromEncodedLoop]
-  · by_cases h126 : c = 126
-    · subst h126; simp [fromEncodedLoop]
-    · simp [fromEncodedLoop, h47, h126, h1, h2]
-
-theorem loop_other (b : Nat) (r : Bytes) (o : Nat) (h1 : b ≠ 47) (h2 : b ≠ 126) :
-    fromEncodedLoop (b :: r) o false = fromEncodedLoop r (o + 1) false := by
-  simp [fromEncodedLoop, h1, h2]
-
-theorem firstBad_none_iff (r : Bytes) : firstBad r = none ↔ validTok r = true := by
-  rw [validTok_iff]
-  fun_induction firstBad r with
-  | case1 => simp [tildesOk]
-  | case2 r => simp
-  | case3 c r' hc _ ih =>
-    rw [tildesOk_tilde_cons]
-    rcases hc with rfl | rfl <;> simp [ih]
-  | case4 c r' hc _ =>
-    rw [tildesOk_tilde_cons]
-    simp at hc
-    simp [hc]
-  | case5 => simp [tildesOk]
-  | case6 b r h1 h2 ih =>
-    rw [tildesOk_cons_ne b r h2]
-    have : ¬ 47 = b := fun h => h1 h.symm
-    simp [ih, this]
-
-theorem badTildeAt_cons (b : Nat) (r : Bytes) (j : Nat) (h : badTildeAt r j) :
-    badTildeAt (b :: r) (j + 1) := by
-  simpa [badTildeAt] using h
-
-/-- what `fromEncodedLoop` reports, relative to the remaining suffix -/
-theorem loop_spec (r : Bytes) (o : Nat) :
-    (fromEncodedLoop r o false = .ok false → firstBad r = none) ∧
-    (fromEncodedLoop r o false = .ok true →
-      ∃ f, firstBad r = some f ∧ f + 1 = r.length ∧ r[f]? = some 126) ∧
-    (∀ k kind, fromEncodedLoop r o false = .err ⟨k, kind⟩ →
-      ∃ j f, k = o + j ∧ firstBad r = some f ∧ (f = j ∨ f + 1 = j) ∧
-        (kind = .slash → r[j]? = some 47) ∧
-        (kind = .tilde → badTildeAt r j ∨ (1 ≤ j ∧ badTildeAt r (j - 1)))) := by
-  fun_induction firstBad r generalizing o with
-  | case1 => simp [fromEncodedLoop]
-  | case2 r =>
-    simp only [fromEncodedLoop, if_true]
-    refine ⟨by simp, by simp, ?_⟩
-    intro k kind h
-    simp at h
-    obtain ⟨rfl, rfl⟩ := h
-    exact ⟨0, 0, by simp⟩
-  | case3 c r' hc _ ih =>
-    rw [loop_tilde_ok c r' o hc]
-    obtain ⟨ih1, ih2, ih3⟩ := ih (o + 2)
-    refine ⟨fun h => by simp [ih1 h], fun h => ?_, fun k kind h => ?_⟩
-    · obtain ⟨f, hf, hl, hg⟩ := ih2 h
-      exact ⟨f + 2, by simp [hf], by simp; omega, by simpa using hg⟩
-    · obtain ⟨j, f, hk, hf, hfj, hs, ht⟩ := ih3 k kind h
-      refine ⟨j + 2, f + 2, by omega, by simp [hf], by omega, ?_, ?_⟩
-      · intro hk; simpa using hs hk
-      · intro hk
-        rcases ht hk with ht | ⟨hj, ht⟩
-        · left; exact badTildeAt_cons _ _ _ (badTildeAt_cons _ _ _ ht)
-        · right
-          refine ⟨by omega, ?_⟩
-          have : j + 2 - 1 = (j - 1) + 1 + 1 := by omega
-          rw [this]
-          exact badTildeAt_cons _ _ _ (badTildeAt_cons _ _ _ ht)
-  | case4 c r' hc _ =>
-    simp at hc
-    rw [loop_tilde_bad c r' o hc.1 hc.2]
-    refine ⟨by simp, by simp, ?_⟩
-    intro k kind h
-    simp at h
-    obtain ⟨rfl, rfl⟩ := h
-    refine ⟨1, 0, rfl, rfl, by simp, ?_, ?_⟩
-    · intro hk
-      by_cases h47 : c = 47
-      · simp [h47]
-      · simp [h47] at hk
-    · intro _
-      right
-      simp [badTildeAt, hc]
-  | case5 =>
-    simp only [fromEncodedLoop]
-    simp
-  | case6 b r h1 h2 ih =>
-    rw [loop_other b r o h1 h2]
-    obtain ⟨ih1, ih2, ih3⟩ := ih (o + 1)
-    refine ⟨fun h => by simp [ih1 h], fun h => ?_, fun k kind h => ?_⟩
-    · obtain ⟨f, hf, hl, hg⟩ := ih2 h
-      exact ⟨f + 1, by simp [hf], by simp; omega, by simpa using hg⟩
-    · obtain ⟨j, f, hk, hf, hfj, hs, ht⟩ := ih3 k kind h
-      refine ⟨j + 1, f + 1, by omega, by simp [hf], by omega, ?_, ?_⟩
-      · intro hk; simpa using hs hk
-      · intro hk
-        rcases ht hk with ht | ⟨hj, ht⟩
-        · left; exact badTildeAt_cons _ _ _ ht
-        · right
-          refine ⟨by omega, ?_⟩
-          have : j + 1 - 1 = (j - 1) + 1 := by omega
-          rw [this]
-          exact badTildeAt_cons _ _ _ ht
 
 /-- `Token::new(s).encoded()` is `s` with `~`→`~0`, `/`→`~1` -/
 theorem new_encoded (s : Bytes) : (Token.new s).bytes = enc s := by
